@@ -211,6 +211,9 @@ def check():
         o.inconc("MIR: %s" % str(ex)[-200:])
     if not c17.identity_lemmas(o, L, S, E, lambda name, model: bad.append(name)):
         return o.finish()
+    # where the edits go: locations of identifier nodes (node_location lemma and range kernel of C17 / C16)
+    c17.location_lemmas(o, E, ML, structural)
+    c17.range_kernel(o)
 
     o.samples = [{"query": q["name"], "verdict": q["verdict"]} for q in o.queries[:12]]
     import lspcorpus
@@ -235,6 +238,10 @@ def check():
 
 
 def replay(path):
+    import os
+    if "h_unicode" in os.path.basename(os.path.normpath(path)):
+        import kanirun
+        return kanirun.replay_saved(path)
     import lspcorpus
     probs, detail = lspcorpus.run(new_replay_dir("C18", "lsp-corpus"), want=("rename",))
     print(detail)
